@@ -112,8 +112,8 @@ impl CycleJudge {
                     return Some(format!("C15 cycle [{}] repeated {} times keeps growing: file length after each repetition {:?}", body, l.len(), l));
                 }
                 if l[1] != l[0] {
-                    let grown = (l[1] as i64 - l[0] as i64) / self.sector_len as i64;
-                    let retained = self.container[1] as i64 - self.container[0] as i64;
+                    let grown = (l[1] as i64 - l[0] as i64) / self.sector_len.max(1) as i64;
+                    let retained = if self.container.len() >= 2 { self.container[1] as i64 - self.container[0] as i64 } else { 0 };
                     if grown > 0 && grown <= retained {
                         return Some(format!("C15 second-repetition growth: cycle [{}]: file length after each repetition {:?}; the first repetition left {} more sector(s) in the MiniFAT / mini stream chains, the second grew the file by {}", body, l, retained, grown));
                     }
@@ -193,7 +193,7 @@ pub fn campaign(seed: u64, count: u64, max_ops: u64, cfg: &PhysCfg, ops_path: &s
     let plain = ["a", "b", "c", "d", "e", "f", "g", "h"];
     // names whose UTF-16 length differs from their char count, non-ASCII case pairs, punctuation
     // between 'Z' and 'a', a 31-unit name: what the directory entry codec has to get right
-    let exotic = ["a", "B", "日本", "𐐀x", "x😀", "éa", "_b", "ǅx", "a name of thirty-one units ...."];
+    let exotic = ["a", "B", "日本", "𐐀x", "x😀", "éa", "_b", "ǅx", "a name of thirty-one units ....", "n\u{0}", "\u{0}", "p\u{0}q"];
     let cyc = ["t1", "t2"];
     for h in 0..count {
         let mut r = rng.fork();
